@@ -15,6 +15,9 @@ use std::collections::BTreeMap;
 pub enum Tier {
     Quick,
     Thorough,
+    /// workloads small enough for an interpreter (Miri): same generators and oracles, a handful of cases
+    /// per scenario and sizes capped by `cap()`
+    Tiny,
 }
 
 impl Tier {
@@ -22,6 +25,7 @@ impl Tier {
         match s {
             "quick" => Some(Tier::Quick),
             "thorough" => Some(Tier::Thorough),
+            "tiny" => Some(Tier::Tiny),
             _ => None,
         }
     }
@@ -29,14 +33,29 @@ impl Tier {
         match self {
             Tier::Quick => "quick",
             Tier::Thorough => "thorough",
+            Tier::Tiny => "tiny",
         }
     }
     pub fn pick<T>(self, quick: T, thorough: T) -> T {
         match self {
-            Tier::Quick => quick,
+            Tier::Quick | Tier::Tiny => quick,
             Tier::Thorough => thorough,
         }
     }
+    pub fn pick3<T>(self, quick: T, thorough: T, tiny: T) -> T {
+        match self {
+            Tier::Quick => quick,
+            Tier::Thorough => thorough,
+            Tier::Tiny => tiny,
+        }
+    }
+}
+
+/// Upper bound on generated payload / write / datagram sizes; unlimited except in the tiny tier (set once by
+/// the `miri` entry point before any scenario runs).
+pub static SIZE_CAP: std::sync::atomic::AtomicUsize = std::sync::atomic::AtomicUsize::new(usize::MAX);
+pub fn cap(n: usize) -> usize {
+    n.min(SIZE_CAP.load(std::sync::atomic::Ordering::Relaxed))
 }
 
 /// FNV-1a, used for fingerprints and seed derivation (stable across runs)
